@@ -55,10 +55,9 @@ shape("Configuration", name="any", name_re="any", tag_expression="any", reporter
 # Context: layered scopes (view proved under C13); only what the run methods rely on
 contract("abs:Context._push", trusted=True, params={"self": "ref:Context"}, pos_params=["self", "layer"],
          defaults={"layer": None},
-         modifies=["G_ctx_depth", "G_ctx_saved_scenario"],
-         ensures={"deeper": "G_ctx_depth == old(G_ctx_depth) + 1",
-                  "saved": "G_ctx_saved_scenario(old(G_ctx_depth)) == G_ctx_scenario and "
-                           "forall(lambda k: implies(k != old(G_ctx_depth), G_ctx_saved_scenario(k) == old(G_ctx_saved_scenario(k))))"},
+         modifies=["G_ctx_depth"],
+         ghost_stores=[("ctx_saved_scenario", "G_ctx_depth", "G_ctx_scenario")],
+         ensures={"deeper": "G_ctx_depth == old(G_ctx_depth) + 1"},
          doc="opens a scope")
 contract("abs:Context._pop", trusted=True, params={"self": "ref:Context"}, pos_params=["self"],
          modifies=["G_ctx_depth", "G_ctx_scenario", "G_npops", "G_bad", "G_ncleanup_runs"],
